@@ -1,5 +1,6 @@
 ---- MODULE MC_q_shapes ----
 EXTENDS MCOFWire
 TheCases == Payloads({0, 1, 2, 7, 8, 9, 1499, 1500}) \cup ListsOf(1) \cup Counts(0..3)
+TheRCases == {}
 TheAround == AroundOne
 ====
